@@ -26,6 +26,11 @@ def _selectors(sv):
             sels.append('[%s%s%s]' % (an, op, '"x"' if op else ''))
             if op:
                 sels.append('[%s%s"x" i]' % (an, op))
+    # the same under a namespace prefix: another path through the attribute look-up on namespace-aware trees
+    for op in ('', '=', '~=', '!=', '*='):
+        for an in ('t', 'class', 'type'):
+            sels.append('[*|%s%s%s]' % (an, op, '"x"' if op else ''))
+            sels.append('[svg|%s%s%s]' % (an, op, '"x"' if op else ''))
     sels += ['.x', '#x', '.x.y', 'p.x > *', '* + input', 'div ~ *', ':not(.x, #x)', '[t="5" s]', 'svg|circle', '*|*', '|p']
     return sels
 
@@ -352,7 +357,7 @@ def main(tier):
         if not must_hold and not res.violation:
             chk.machinery('negative model (as-is check order) was not refuted (vacuity guard)')
     ctxs = '{"rooted", "detached", "multi", "foreign", "iframe", "xhtml"}'
-    replay.stream(chk, 'MC_C08_shapes', {'NAttrs': 1, 'Contexts': ctxs if tier == 'thorough' else '{"rooted", "detached", "iframe", "multi"}',
+    replay.stream(chk, 'MC_C08_shapes', {'NAttrs': 1, 'Contexts': ctxs if tier == 'thorough' else '{"rooted", "detached", "iframe", "multi", "xhtml"}',
                                          'TypeFirst': 'FALSE', 'OnlyInput': 'FALSE'},
                   'shapes1', _work, _init, is_header=lambda v: False, chunk=8)
     replay.stream(chk, 'MC_C08_shapes', {'NAttrs': 2, 'Contexts': ctxs if tier == 'thorough' else '{"rooted", "detached"}',
